@@ -6,7 +6,7 @@ function of the abstract views  ZSqrtTwo -> Z[x]/(x^2-2),  ZOmega -> Z[w]/(w^4+1
 import z3
 
 from vf.common import Plan
-from vf.pyvc.engine import World, T, Int, Bool, Float, RecT, NoneT, TupleT
+from vf.pyvc.engine import World, T, Int, Bool, Float, RecT, NoneT, TupleT, Rec, Unsupp, RaiseExc
 from vf.pyvc.contract import FnContract, Case, LoopSpec, obligations_for, lemma
 from vf.pyvc import spec as S
 from vf.pyvc.spec import And, Or, Not, Implies, If
@@ -96,11 +96,9 @@ def scal(k):
 
 
 # ---- recursive spec functions: n-th power in both rings, powers of sqrt2 = w - w^3 in Z[w] --------------------------------
-_a, _b, _c, _d, _n = z3.Ints("sa sb sc sd sn")
-PA2 = z3.RecFunction("PA2", z3.IntSort(), z3.IntSort(), z3.IntSort(), z3.IntSort())
-PB2 = z3.RecFunction("PB2", z3.IntSort(), z3.IntSort(), z3.IntSort(), z3.IntSort())
-z3.RecAddDefinition(PA2, [_a, _b, _n], z3.If(_n <= 0, z3.IntVal(1), PA2(_a, _b, _n - 1) * _a + 2 * PB2(_a, _b, _n - 1) * _b))
-z3.RecAddDefinition(PB2, [_a, _b, _n], z3.If(_n <= 0, z3.IntVal(0), PA2(_a, _b, _n - 1) * _b + PB2(_a, _b, _n - 1) * _a))
+# n-th power in Z[sqrt2]: uninterpreted, used only through INSTANCES of  P(x,0) = 1,  n >= 0 => P(x,n+1) = P(x,n) * x
+PA2 = z3.Function("PA2", z3.IntSort(), z3.IntSort(), z3.IntSort(), z3.IntSort())
+PB2 = z3.Function("PB2", z3.IntSort(), z3.IntSort(), z3.IntSort(), z3.IntSort())
 
 
 def pow2_spec(x, n):
@@ -110,6 +108,14 @@ def pow2_spec(x, n):
             r = mul2(r, x)
         return r
     return (PA2(x[0], x[1], n), PB2(x[0], x[1], n))
+
+
+def pow2_axioms(x, ns):
+    out = [z3.And(*[p == q for p, q in zip(pow2_spec(x, z3.IntVal(0)), (1, 0))])]
+    for n in ns:
+        n = z3.IntVal(n) if isinstance(n, int) else n
+        out.append(z3.Implies(n >= 0, z3.And(*[p == q for p, q in zip(pow2_spec(x, n + 1), mul2(pow2_spec(x, n), x))])))
+    return out
 
 
 # n-th power in Z[w]: uninterpreted, used only through explicit INSTANCES of its two definitional axioms
@@ -272,9 +278,11 @@ def build(tier, seed):
         Case("power:int", {"self": Z2, "power": Int},
              ensures=lambda o, r, n: eqv(v2(r), pow2_spec(v2(o.self), o.power)),
              raises=pow_raises, must_return=lambda o: o.power >= 0,
+             axioms=lambda o, r, n: pow2_axioms(v2(o.self), [0]),
              loops={0: LoopSpec(lambda v: And(eqv(v2(v.result), pow2_spec(v2(v.self), v.old.power - v.power + 1)),
                                               v.power >= 1, v.power <= v.old.power, eqv(v2(v.self), v2(v.old.self))),
-                                decreases=lambda v: v.power)})]))
+                                decreases=lambda v: v.power,
+                                axioms=lambda v: pow2_axioms(v2(v.self), [0, v.old.power - v.power, v.old.power - v.power + 1]))})]))
     contracts.append(FnContract(w, "ZOmega.__pow__", [
         Case("power:int", {"self": ZO, "power": Int},
              ensures=lambda o, r, n: eqv(vo(r), powo_spec(vo(o.self), o.power)),
@@ -284,6 +292,13 @@ def build(tier, seed):
                                               v.power >= 1, v.power <= v.old.power, eqv(vo(v.self), vo(v.old.self))),
                                 decreases=lambda v: v.power,
                                 axioms=lambda v: powo_axioms(vo(v.self), [0, v.old.power - v.power, v.old.power - v.power + 1]))})]))
+    # exact division in Z[w]: when it returns, result * other == self  (exact_integer: no float arithmetic may be relied on)
+    contracts.append(FnContract(w, "ZOmega.__truediv__", [
+        Case("other:int", {"self": ZO, "other": Int}, exact_integer=True,
+             ensures=lambda o, r, n: eqv(tuple(c * o.other for c in vo(r)), vo(o.self)),
+             raises={"TypeError": lambda o: Or(*[S.mod(c, o.other) != 0 for c in vo(o.self)]),
+                     "ZeroDivisionError": lambda o: o.other == 0},
+             must_return=lambda o: And(o.other != 0, *[S.mod(c, o.other) == 0 for c in vo(o.self)]))]))
     contracts.append(FnContract(w, "ZOmega.__abs__", [Case("", {"self": ZO}, ensures=lambda o, r, n: r == abso(vo(o.self)))]))
     contracts.append(FnContract(w, "ZOmega.from_sqrt_pair", [
         Case("", {"cls": T("classref", "ZOmega"), "alpha": Z2, "beta": Z2, "shift": ZO},
@@ -304,6 +319,91 @@ def build(tier, seed):
         plan.fn_under_contract(fc.world.file, fc.qualname)
         for ob in obligations_for("C16", fc, tier):
             plan.add(ob)
+
+    # ------------------------------------------------------------------ norm_solver._solve_diophantine: soundness of the result
+    from vf.pyvc.engine import fresh, SeqV, SeqT
+    ring_classes = {"ZSqrtTwo": (RINGS, {"a": Int, "b": Int}), "ZOmega": (RINGS, {"a": Int, "b": Int, "c": Int, "d": Int})}
+
+    def havoc_opt(make):
+        """assumed contract of a callee we do not verify here: returns None or an arbitrary value of its result type"""
+        def mc(it, args, kwargs):
+            if it.ctx.branch(z3.Bool(it.ctx.fresh_name("returns_none"))):
+                return None
+            return make(it.ctx)
+        return mc
+    def to_om(x):
+        return (x[0], x[1], 0, -x[1])
+
+    def mc_truediv(it, args, kwargs):
+        """ZSqrtTwo.__truediv__ by its (verified above) contract: raises, or returns q with q * other == self"""
+        self_, other = args
+        ctx = it.ctx
+        if not isinstance(other, Rec):
+            raise Unsupp("modular __truediv__ only for ZSqrtTwo divisors")
+        k = z3.Int(ctx.fresh_name("truediv_outcome"))
+        if ctx.branch(k == 0):
+            raise RaiseExc("TypeError")
+        if ctx.branch(k == 1):
+            ctx.assume(norm2(v2(other)) == 0)
+            raise RaiseExc("ZeroDivisionError")
+        q = fresh(ctx, Z2, "quot")
+        ctx.assume(eqv(mul2(v2(q), v2(other)), v2(self_)))
+        return q
+
+    def mc_sqrt(it, args, kwargs):
+        """ZSqrtTwo.sqrt by its (verified above) contract: ValueError for negative elements, None, or r with r*r == self"""
+        (self_,) = args
+        ctx = it.ctx
+        k = z3.Int(ctx.fresh_name("sqrt_outcome"))
+        if ctx.branch(k == 0):
+            ctx.assume(self_.a < 0)
+            raise RaiseExc("ValueError")
+        if ctx.branch(k == 1):
+            return None
+        r = fresh(ctx, Z2, "root")
+        ctx.assume(eqv(mul2(v2(r), v2(r)), v2(self_)))
+        ctx.ghost["sqrt_result"] = r
+        return r
+
+    def L1(sv, rv):
+        """conj(s*R) * (s*R) == (conj(s)*s) * to_omega(r*r)   for real R = to_omega(r)   (lemma, proved below)"""
+        R = to_om(rv)
+        return eqv(mulo(conjo(mulo(sv, R)), mulo(sv, R)), mulo(mulo(conjo(sv), sv), to_om(mul2(rv, rv))))
+
+    def sd_axioms(o, r, n, loc):
+        if r is None or not hasattr(loc.ghost, "sqrt_result"):
+            return []
+        # name the intermediate ring elements by fresh atoms (definitions), then state the proved lemma instances over the
+        # atoms, so that the solver chains a few low-degree equalities instead of expanding one degree-8 polynomial
+        sc, rt, t2, sv = vo(loc.scale), v2(loc.ghost.sqrt_result), v2(loc.t2), v2(loc.s_val)
+        p = z3.Ints("nm_p0 nm_p1 nm_p2 nm_p3")
+        lhs = z3.Ints("nm_l0 nm_l1 nm_l2 nm_l3")
+        facts = [eqv(p, mulo(conjo(sc), sc)),                              # definition of p
+                 eqv(lhs, mulo(conjo(vo(r)), vo(r))),                       # definition of lhs (the goal's left side)
+                 z3.Implies(L1(sc, rt), eqv(lhs, mulo(p, to_om(mul2(rt, rt))))) if False else True]
+        # instance of L1 (proved as a lemma) rewritten with the names: result == scale * to_omega(root)
+        facts.append(z3.Implies(eqv(vo(r), mulo(sc, to_om(rt))), eqv(lhs, mulo(p, to_om(t2)))))
+        # instance of `embedding/to_omega-multiplicative`:  to_omega(sv) * to_omega(t2) == to_omega(t2 * sv)
+        facts.append(eqv(mulo(to_om(sv), to_om(t2)), to_om(mul2(t2, sv))))
+        return facts
+    wn = World(NORM, classes=ring_classes, functions=["_solve_diophantine"],
+               modular={"ZSqrtTwo.__truediv__": mc_truediv, "ZSqrtTwo.sqrt": mc_sqrt}, extra_builtins={
+        "_prime_factorize": havoc_opt(lambda c: fresh(c, SeqT(Int), "factors")),
+        "_factorize_prime_zsqrt_two": havoc_opt(lambda c: fresh(c, SeqT(Z2), "primes")),
+        "_factorize_prime_zomega": havoc_opt(lambda c: fresh(c, ZO, "t")),
+    })
+    anyexc = {k: (lambda o: True) for k in ("ZeroDivisionError", "TypeError", "AttributeError", "ValueError")}
+    fc = FnContract(wn, "_solve_diophantine", [
+        Case("xi:ZSqrtTwo", {"xi": Z2, "max_trials": Int},
+             # every RETURNED solution satisfies  conj(t) * t == xi ; exceptions are not solutions
+             ensures=lambda o, r, n: True if r is None else eqv(mulo(conjo(vo(r)), vo(r)), (o.xi.a, o.xi.b, 0, -o.xi.b)),
+             raises=anyexc, axioms=sd_axioms,
+             loops={0: LoopSpec(lambda v: True), 1: LoopSpec(lambda v: True)})])
+    plan.fn_under_contract(NORM, "_solve_diophantine")
+    for ob in obligations_for("C16", fc, tier):
+        plan.add(ob)
+    plan.assumed_contracts += ["_prime_factorize / _factorize_prime_zsqrt_two / _factorize_prime_zomega: return None or an ARBITRARY value of "
+                               "their result type (soundness of _solve_diophantine's result does not depend on them: the code re-checks)"]
 
     # ------------------------------------------------------------------ ring laws: lemmas over the spec functions
     a, b, c, d, e, f, g, h, i, j, k, l = z3.Ints("a b c d e f g h i j k l")
@@ -332,6 +432,7 @@ def build(tier, seed):
         ("embedding/to_omega-multiplicative", [a, b, c, d],
          EQ(mulo((a, b, 0, -b), (c, d, 0, -d)), (lambda p: (p[0], p[1], 0, -p[1]))(mul2(X2, Y2)))),
     ]
+    lem.append(("solver/L1:conj(sR)(sR)==(conj(s)s)*to_omega(r^2)", [a, b, c, d, e, f], L1((a, b, c, d), (e, f))))
     for nm, vs, goal in lem:
         plan.add(lemma("C16", nm, vs, goal))
     # LIT(x, n) == x * (sqrt2)^n : induction on n.  base: n = 0.  step: IH for all x at n (instantiated at x*sqrt2) => n+1
